@@ -146,3 +146,87 @@ package lalr
 //@     invariant forall p in c.out.DefaultEnc.Goto[sym]..min :: p % 2 == 0 ==> c.out.DefaultEnc.FromTo[p] < state
 //@     invariant forall p in max..c.out.DefaultEnc.Goto[sym+1] :: p % 2 == 0 ==> c.out.DefaultEnc.FromTo[p] > state
 //@     decreases max - min
+
+// ---- the displacement allocator (C05): where a line of (position, value) pairs goes in the table ----
+
+// A line is a non-empty list of pairs with non-negative, strictly increasing positions.
+//@ pred linePairs(p []pair) = len(p) >= 1 && p[0].pos >= 0 && forall i in 0..len(p) :: forall j in i+1..len(p) :: p[i].pos < p[j].pos
+
+// The allocator invariant, in three parts. allocShape: table and check have the same length and hold
+// the first `size` cells; the four arrays are different arrays. allocTaken: a cell below `size` is
+// taken iff its check entry is non-zero; nothing is taken and nothing is written at or beyond `size`.
+// allocBases: a base that is marked used lies below `size`. allocSmall bounds the sizes (machine
+// integers in the bit-set code; assumed, not re-established).
+//@ pred allocShape(a *allocator) = 0 <= a.size && a.size <= len(a.table) && len(a.table) == len(a.check) && 0 <= a.delta && a.prev != nil && otherarray(a.table, a.check) && otherarray(a.taken, a.usedBase)
+//@ pred allocSmall(a *allocator) = a.size <= 1073741824 && a.delta <= 1073741824 && len(a.taken) <= 268435456 && len(a.usedBase) <= 268435456
+//@ pred allocTakenA(a *allocator) = a.size <= 32*len(a.taken) && forall k in 0..a.size :: (a.check[k] != 0 <==> bit(a.taken, k))
+//@ pred allocTakenB(a *allocator) = forall k in a.size..32*len(a.taken) :: !bit(a.taken, k)
+//@ pred allocTakenC(a *allocator) = forall k in a.size..len(a.check) :: a.check[k] == 0
+//@ pred allocTaken(a *allocator) = allocTakenA(a) && allocTakenB(a) && allocTakenC(a)
+//@ pred allocBases(a *allocator) = forall k in 0..32*len(a.usedBase) :: bit(a.usedBase, k) ==> k - a.delta < a.size
+
+//@ func hash
+//@   loop 1:
+//@     invariant 0 <= @i && @i <= len(pairs)
+
+// NOT CLAIMED (work in progress): the contract of place below is the intended one, but about twenty of
+// its obligations (re-establishing allocTaken after the two Grow calls, the bookkeeping of the
+// deferred part) do not discharge within the limits yet, so place is not registered for any check and
+// C05 relies on the bounded checks for it. hash, allocator.grow and the BitSet operations it calls are
+// proved.
+// place: the line is decodable at the returned base (every pair's cell holds its value and its
+// position+1 as the check), no cell of another line is touched, and a base that was already in use is
+// only returned when the line's cells were all there already (so two different lines never share a
+// base - F4 of DESIGN.md was exactly a violation of this). The allocator invariant is kept.
+//@ func allocator.place
+//@   requires allocShape(a) && allocSmall(a) && allocTaken(a) && allocBases(a) && linePairs(pairs) && pairs[0].pos <= a.delta && pairs[len(pairs)-1].pos <= 1073741824
+//@   modifies a.size, a.taken, a.usedBase, a.table, a.check, a.table[0:cap(a.table)], a.check[0:cap(a.check)], a.taken[0:cap(a.taken)], a.usedBase[0:cap(a.usedBase)]
+//@   ensures allocShape(a) && a.delta == old(a.delta) && old(a.size) <= a.size
+//@   ensures allocTakenA(a)
+//@   ensures allocTakenB(a)
+//@   ensures allocTakenC(a)
+//@   ensures allocBases(a)
+//@   ensures forall k in 0..len(pairs) :: 0 <= base + pairs[k].pos && base + pairs[k].pos < a.size && a.table[base + pairs[k].pos] == pairs[k].val && a.check[base + pairs[k].pos] == pairs[k].pos + 1
+//@   ensures forall j in 0..old(a.size) :: old(a.check[j]) != 0 ==> a.check[j] == old(a.check[j]) && a.table[j] == old(a.table[j])
+//@   ensures 0 <= a.delta + base && a.delta + base < 32*len(old(a.usedBase)) && old(bit(a.usedBase, a.delta + base)) ==> forall k in 0..len(pairs) :: old(a.check[base + pairs[k].pos]) == pairs[k].pos + 1 && old(a.table[base + pairs[k].pos]) == pairs[k].val
+//@   loop 1:
+//@     invariant 0 <= @i && @i <= len(pairs) && min + base >= 0 && max + base < a.size
+//@     invariant ok ==> forall k in 0..@i :: a.table[base + pairs[k].pos] == pairs[k].val && a.check[base + pairs[k].pos] == pairs[k].pos + 1
+//@   loop 2:
+//@     invariant 0 <= i && i <= 32*len(a.taken) && (i < a.size ==> !bit(a.taken, i))
+//@     invariant 32*len(a.taken) >= a.size + max - min + 1 && 32*len(a.usedBase) >= a.delta + a.size + max - min + 1 && len(a.taken) <= 34359738368
+//@     invariant allocTakenA(a)
+//@     invariant allocTakenB(a)
+//@     invariant allocTakenC(a)
+//@     invariant allocBases(a)
+//@     invariant forall k in 0..32*len(old(a.usedBase)) :: bit(a.usedBase, k) == old(bit(a.usedBase, k))
+//@   loop 3:
+//@     invariant 0 <= @i && @i <= len(pairs) - 1 && base == i - min && i < a.size && !bit(a.taken, i) && !bit(a.usedBase, a.delta + base) && !bit(a.taken, base + max)
+//@     invariant forall k in 1..@i+1 :: !bit(a.taken, base + pairs[k].pos)
+//@   loop 4:
+//@     invariant a.size - min <= base && base <= a.size
+
+// the deferred part of place: marks the cells and the base, grows the table, writes the line
+//@ func allocator.place$1
+//@   inline
+//@   loop 1:
+//@     invariant 0 <= @i && @i <= len(pairs)
+//@     invariant forall j in 0..32*len(a.taken) :: bit(a.taken, j) <==> ((j < a.size && a.check[j] != 0) || exists k in 0..@i :: j == base + pairs[k].pos)
+//@     invariant forall k in 0..len(pairs) :: base + pairs[k].pos < len(a.check) ==> a.check[base + pairs[k].pos] == 0
+//@   loop 2:
+//@     invariant 0 <= @i && @i <= len(pairs) && old(a.size) <= a.size && a.size <= len(a.table) && len(a.table) == len(a.check) && otherarray(a.table, a.check) && 0 <= base + pairs[0].pos && base + max < a.size && max == pairs[len(pairs)-1].pos
+//@     invariant forall k in 0..@i :: a.table[base + pairs[k].pos] == pairs[k].val && a.check[base + pairs[k].pos] == pairs[k].pos + 1
+//@     invariant forall k in @i..len(pairs) :: a.check[base + pairs[k].pos] == 0
+//@     invariant forall j in 0..32*len(a.taken) :: bit(a.taken, j) <==> ((j < len(a.check) && a.check[j] != 0) || exists k in @i..len(pairs) :: j == base + pairs[k].pos)
+//@     invariant forall j in 0..old(a.size) :: old(a.check[j]) != 0 ==> a.check[j] == old(a.check[j]) && a.table[j] == old(a.table[j])
+//@     invariant forall j in a.size..len(a.check) :: a.check[j] == 0
+//@     invariant a.size <= 32*len(a.taken)
+//@     invariant allocBases(a)
+
+//@ func allocator.grow
+//@   requires len(a.table) == len(a.check) && otherarray(a.table, a.check)
+//@   modifies a.table, a.check, a.table[0:cap(a.table)], a.check[0:cap(a.check)]
+//@   ensures len(a.table) >= size && len(a.table) >= old(len(a.table)) && len(a.table) == len(a.check) && otherarray(a.table, a.check)
+//@   ensures forall k in 0..old(len(a.table)) :: a.table[k] == old(a.table[k]) && a.check[k] == old(a.check[k])
+//@   ensures forall k in old(len(a.table))..len(a.table) :: a.table[k] == 0 && a.check[k] == 0
+//@   ensures (fresh(a.table) || samearray(a.table, old(a.table))) && (fresh(a.check) || samearray(a.check, old(a.check)))
